@@ -1,0 +1,8 @@
+//go:build !verif
+
+// Package verifhook holds the yield points of the verification harness.
+// Without the verif build tag they are no-ops.
+package verifhook
+
+// Yield is a no-op without the verif build tag.
+func Yield(point string, id string) {}
